@@ -104,11 +104,11 @@ type pointLine struct {
 }
 
 type diffLine struct {
-	Arch       int
-	T          int64
-	Src, Dest  float64
-	DestMinus  float64
-	Raw        string
+	Arch      int
+	T         int64
+	Src, Dest float64
+	DestMinus float64
+	Raw       string
 }
 
 var pointRe = regexp.MustCompile(`^archive:(\d+)\tt:(\S+)\tval:(\S+)$`)
